@@ -1,4 +1,4 @@
-import shim, warnings, traceback
+import sktime_compat as shim, warnings, traceback
 warnings.filterwarnings("ignore")
 import numpy as np, pandas as pd
 from sktime.forecasting.base import ForecastingHorizon
